@@ -261,6 +261,19 @@ class HybridClass(metaclass=MetaHybridClass):
 
                 pyname = self._rename.get(ff.name, ff.name)
                 setattr(self, pyname, vv)
+            elif isinstance(ff.ftype, Ref) and hasattr(
+                self, "_dressed_" + ff.name
+            ):
+                # a dressed object bound to a reference field stays bound
+                # only if the reference in the new data denotes that object
+                old_vv = getattr(self, "_dressed_" + ff.name)
+                target = getattr(_xobject, ff.name)
+                if (
+                    target is None
+                    or target._buffer is not old_vv._xobject._buffer
+                    or target._offset != old_vv._xobject._offset
+                ):
+                    delattr(self, "_dressed_" + ff.name)
 
     def xoinitialize(self, _xobject=None, _kwargs_name_check=True, **kwargs):
         if _kwargs_name_check:
